@@ -66,7 +66,7 @@ Print Assumptions C01_expressions_partial.
    `no_claim` = the reference semantics reports FType 13 (a from-loop counter that a body turned into a non-integer) *)
 Check module_correct.
 Theorem C01_module_correct_partial : forall (path : str) (p : list stmt),
-  ok_block false [] p = true -> ExprBase.small (length (module_code p) + 4) ->
+  ok_block [] false [] p = true -> ExprBase.small (2 * length (module_code p) + 8) ->
   forall fuel : nat, snd (run fuel p) <> ROFuel ->
   no_claim (snd (run fuel p)) \/
   (exists fuel' : nat,
